@@ -637,6 +637,72 @@ theorem gorillaRoutes_leak_eq (d : Doc) (h : leakShape (inMatchingOrder d.paths)
   | none => rfl
   | some ds => exact gLoop_leak_eq _ ds (Or.inl rfl) h
 
+theorem gLoop_fixed_built {ds : List GSrv} : ∀ {ps : List PathDecl} {cur : List GSrv} {rs : List GRoute},
+    gLoop false ds cur ps = some rs → ∀ pd ∈ ps, ∀ g,
+      (if pd.servers = [] then g ∈ ds else ∃ l, gMakeServers (SrvRef.path pd.template) pd.servers = some l ∧ g ∈ l) →
+      ∃ r, mkRoute pd g = some r := by
+  intro ps
+  induction ps with
+  | nil => intro cur rs _ pd hpd; simp at hpd
+  | cons p ps ih =>
+    intro cur rs h pd hpd g hg
+    obtain ⟨use, a, b, hu, ha, hb, rfl⟩ := gLoop_cons h
+    simp only [List.mem_cons] at hpd
+    rcases hpd with rfl | hpd
+    · have hgu : g ∈ use := by
+        split at hu
+        · rename_i he
+          simp only [Bool.false_eq_true, if_false, Option.some.injEq] at hu
+          subst hu
+          simpa [he] using hg
+        · rename_i he
+          simp only [he, if_false] at hg
+          obtain ⟨l, hl, hgl⟩ := hg
+          rw [hu] at hl
+          cases hl
+          exact hgl
+      have e := allSome_eq ha
+      have : mkRoute pd g ∈ a.map some := by rw [← e]; exact List.mem_map.2 ⟨g, hgu, rfl⟩
+      simp only [List.mem_map] at this
+      obtain ⟨r, _, hr⟩ := this
+      exact ⟨r, hr.symm⟩
+    · exact ih hb pd hpd g hg
+
+/-- on documents without the leak shape the route list is exactly (path item) × (servers that apply to it), all compiled -/
+theorem routes_effective {d : Doc} {rs : List GRoute} (h : gorillaRoutesL true d = some rs)
+    (hsh : leakShape (inMatchingOrder d.paths) = false) :
+    (∀ r, r ∈ rs ↔ ∃ pd ∈ d.paths, ∃ g, EffSrv d pd g ∧ mkRoute pd g = some r) ∧
+    (∀ pd ∈ d.paths, ∀ g, EffSrv d pd g → ∃ r, mkRoute pd g = some r) := by
+  rw [gorillaRoutes_leak_eq d hsh] at h
+  unfold gorillaRoutesL at h
+  split at h
+  · simp at h
+  · rename_i ds hds
+    have conv : ∀ pd ∈ d.paths, ∀ g, EffSrv d pd g ↔
+        (if pd.servers = [] then g ∈ ds else ∃ l, gMakeServers (SrvRef.path pd.template) pd.servers = some l ∧ g ∈ l) := by
+      intro pd hpd g
+      unfold EffSrv
+      split
+      · exact ⟨fun hg => gMakeServers_get hds hg, fun hg => gMakeServers_mem hds hg⟩
+      · rename_i he
+        constructor
+        · intro hg
+          obtain ⟨l, hl⟩ := gLoop_compiles h pd ((mem_inMatchingOrder _ _).2 hpd) he
+          exact ⟨l, hl, gMakeServers_get hl hg⟩
+        · rintro ⟨l, hl, hgl⟩
+          exact gMakeServers_mem hl hgl
+    refine ⟨?_, ?_⟩
+    · intro r
+      rw [gLoop_fixed_mem h r]
+      constructor
+      · rintro ⟨pd, hpd, g, hm, hg⟩
+        have hpd' := (mem_inMatchingOrder _ _).1 hpd
+        exact ⟨pd, hpd', g, (conv pd hpd' g).2 hg, hm⟩
+      · rintro ⟨pd, hpd, g, hg, hm⟩
+        exact ⟨pd, (mem_inMatchingOrder _ _).2 hpd, g, hm, (conv pd hpd g).1 hg⟩
+    · intro pd hpd g hg
+      exact gLoop_fixed_built h pd ((mem_inMatchingOrder _ _).2 hpd) g ((conv pd hpd g).1 hg)
+
 /-- what it means that a compiled server `g` and a path template `t` reproduce the request with the extracted
     variables `b`: the request path is "base path of g + t" with non-empty slash-free values substituted, the request
     scheme is one of g's schemes, the request host is g's host template with non-empty dot-free values substituted -/
